@@ -59,6 +59,8 @@ type GenCfg struct {
 	CmdPct     int  // percent of commands (below max depth) having sub-commands (default 70)
 	NoBig      bool // never scale the bounds up
 	NoPtr      bool // no pointer-typed group/command fields, no options inside untagged struct fields
+	InCode     int  // percent of options some of whose attributes are assigned in code instead of by tag
+	NoFlag     bool // fields marked no-flag that would otherwise declare options
 }
 
 // uniformInt draws an (almost exactly) uniform integer in [0, n). rapid's own
@@ -429,6 +431,51 @@ func (g *declGen) group(ns *nameSets, nsPrefix string, depth int, allowEmpty boo
 			}
 		}
 	}
+	if cfg.NoFlag && pct(t, "hasNoFlag", 20) {
+		kind := rapid.SampledFrom([]string{"noflag", "noflagstruct", "noflagstruct", "noflaggroup"}).Draw(t, "noFlagKind")
+		gr.Plain = append(gr.Plain, Plain{Field: g.field("P"), Kind: kind, Init: fmt.Sprintf("nf%d", g.nField)})
+	}
+	if cfg.InCode > 0 {
+		for i := range gr.Options {
+			o := &gr.Options[i]
+			if !pct(t, "inCode", cfg.InCode) {
+				continue
+			}
+			var have []string
+			if o.Required != "" {
+				have = append(have, "required")
+			}
+			if len(o.Defaults) > 0 {
+				have = append(have, "default")
+			}
+			if len(o.Choices) > 0 {
+				have = append(have, "choices")
+			}
+			if o.Hidden != "" {
+				have = append(have, "hidden")
+			}
+			if o.Env != "" {
+				have = append(have, "env")
+			}
+			if o.Optional != "" {
+				have = append(have, "optional")
+			}
+			if o.Desc != "" {
+				have = append(have, "desc")
+			}
+			if o.ValueName != "" {
+				have = append(have, "valuename")
+			}
+			if o.DefaultMask != "" {
+				have = append(have, "mask")
+			}
+			for _, a := range have {
+				if pct(t, "inCodeAttr", 60) {
+					o.InCode = append(o.InCode, a)
+				}
+			}
+		}
+	}
 	if cfg.Plain {
 		for i := range gr.Options {
 			o := &gr.Options[i]
@@ -537,6 +584,14 @@ func (g *declGen) cmd(c *Cmd, depth int) {
 			}
 			c.G.Groups = append(c.G.Groups, gr)
 		}
+	}
+	// namespaces of the command itself (assignable in code only); the root's
+	// long-name namespace is left alone: it would rename the built-in help flag
+	if cfg.Ns && !root && !cfg.NoPtr && pct(t, "cmdNs", 8) {
+		c.G.Namespace = rapid.SampledFrom(nsPool).Draw(t, "cmdNsName")
+	}
+	if cfg.EnvNs && !cfg.NoPtr && pct(t, "cmdEnvNs", 12) {
+		c.G.EnvNamespace = rapid.SampledFrom([]string{"CMD", "C_N"}).Draw(t, "cmdEnvNsName")
 	}
 	posPct := cfg.PosPct
 	if posPct == 0 {
@@ -937,6 +992,8 @@ func (g *argvGen) unknownLong() string {
 			cands = append(cands, o.NsLong)
 		}
 	}
+	// names that fields marked no-flag would declare
+	cands = append(cands, g.d.NoFlagNames()...)
 	cands = append(cands, "unknown", "zz", "no-such")
 	sortStrings(cands)
 	var ok []string
